@@ -10,6 +10,7 @@
 #include <asmjit/x86.h>
 #include <asmjit/a64.h>
 #include "vh.h"
+#include <asmjit/x86/x86compiler.h>
 #include <signal.h>
 #include <unistd.h>
 
@@ -208,12 +209,144 @@ static std::string do_sh(const std::vector<std::string>& w) {
   return head + " | " + insts;
 }
 
+
+// ------------------------------------------------------------------------------------------------------------------
+// invoke lowering (x86::Compiler, RACFGBuilder::on_before_invoke and its move_* helpers + the frame's call-stack fields)
+//   iv <env> <ccid> <flags> <n> <tid>=<op>*n
+//     env: x86l x86w x64l x64w (the caller is a `void f(void)` cdecl function of that environment), ccid: the callee's convention
+//     flags: bit0 a 16-byte local (`new_stack`) holding 4 marker dwords 0x5A5A5A50+k written before the arguments are built,
+//            bit1 avx, bit2 avx512
+//     op: i<hex>      immediate (64-bit two's complement)
+//         r<srctid>   a fresh GP virtual register of that type, initialised with `mov reg, 0x8877665544332211 * (k+1)` (truncated)
+//         v<srctid>   a fresh vector virtual register of that type, loaded from the magic address 0x7E0000000000 + 64*k
+//                     (x86-32: 0x7E000000 + 64*k)
+//   answer: ok ass=<invoke arg_stack_size> css=<call_stack_size> csa=<call_stack_alignment> lso=<local_stack_offset>
+//              lss=<local_stack_size> fss=<final_stack_size> da=<0|1> | <inst>;...   the final (post-RA) instructions from the
+//           marker `nop` to the `call` (and what follows it up to the next marker); operands r<regtype>.<id> m<base>.<off>.<size>
+//           i<hex>; instructions the harness emitted itself (initialisation) carry the prefix '#'
+// ------------------------------------------------------------------------------------------------------------------
+static std::string iv_op_str(const Operand_& o) {
+  if (o.is_imm()) return "i" + vh::to_hex(uint64_t(o.as<Imm>().value()));
+  if (o.is_mem()) {
+    const BaseMem& m = o.as<BaseMem>();
+    if (m.has_index() || !m.has_base_reg()) return "m?";
+    return "m" + std::to_string(m.base_id()) + "." + std::to_string(m.offset_lo32()) + "." + std::to_string(o.signature().size());
+  }
+  return op_str(o);
+}
+
+static std::string do_iv(const std::vector<std::string>& w) {
+  Environment env; uint64_t ccid, flags, n;
+  if (w.size() < 5 || !parse_env(w[1], env) || !env.is_family_x86() || !vh::parse_u64(w[2], ccid) || !vh::parse_hex(w[3], flags) ||
+      !vh::parse_u64(w[4], n) || ccid > 255 || n > 32 || w.size() != 5 + n) return "bad-op";
+  bool is64 = env.is_64bit();
+  CodeHolder code;
+  code.init(env);
+  x86::Compiler cc(&code);
+  FuncNode* fn = nullptr;
+  FuncSignature fsig(CallConvId::kCDecl);
+  fsig.set_ret(TypeId::kVoid);
+  Error e = cc.add_func_node(Out<FuncNode*>(fn), fsig);
+  if (e != Error::kOk) return "func-" + err_name(e);
+  if (flags & 2) fn->frame().set_avx_enabled();
+  if (flags & 4) fn->frame().set_avx512_enabled();
+  cc.emit(x86::Inst::kIdNop);
+  x86::Mem loc;
+  if (flags & 1) {
+    loc = cc.new_stack(16, 16);
+    for (int k = 0; k < 4; k++) { x86::Mem m = loc; m.add_offset(4 * k); m.set_size(4); cc.emit(x86::Inst::kIdMov, m, Imm(0x5A5A5A50 + k)); cc.cursor()->set_user_data_as_uint64(7); }
+  }
+  FuncSignature sig{CallConvId(ccid)};
+  sig.set_ret(TypeId::kVoid);
+  std::vector<Operand> ops;
+  std::vector<uint32_t> split;   // x86-32: 64-bit integer immediates are passed as two halves (value_index 0 / 1), as a user has to
+  for (uint64_t i = 0; i < n; i++) {
+    const std::string& a = w[5 + i];
+    size_t eq = a.find('=');
+    uint64_t tid;
+    if (eq == std::string::npos || eq + 2 > a.size() || !vh::parse_u64(a.substr(0, eq), tid) || tid > 255) return "bad-op";
+    sig.add_arg(TypeId(tid));
+    char k = a[eq + 1];
+    std::string rest = a.substr(eq + 2);
+    if (k == 'i') {
+      uint64_t v;
+      if (!vh::parse_hex(rest, v)) return "bad-op";
+      ops.push_back(Imm(int64_t(v)));
+      if (!is64 && TypeUtils::size_of(TypeId(tid)) == 8 && TypeUtils::is_int(TypeId(tid))) split.push_back(uint32_t(i));
+    }
+    else if (k == 'r' || k == 'v') {
+      uint64_t st;
+      if (!vh::parse_u64(rest, st) || st > 255) return "bad-op";
+      Reg r;
+      e = cc._new_reg(Out<Reg>(r), TypeId(st), nullptr);
+      if (e != Error::kOk) return "newreg-" + err_name(e);
+      if (k == 'r') {
+        if (!r.is_gp()) return "bad-op";
+        uint64_t val = 0x8877665544332211ull * (i + 1);
+        uint32_t sz = r.size();
+        if (sz < 8) val &= (uint64_t(1) << (sz * 8)) - 1;
+        e = cc.emit(x86::Inst::kIdMov, r, Imm(int64_t(val)));
+        cc.cursor()->set_user_data_as_uint64(7);
+      }
+      else {
+        if (!r.is_vec()) return "bad-op";
+        x86::Gp t = is64 ? cc.new_gp64() : cc.new_gp32();
+        uint64_t addr = (is64 ? 0x7E0000000000ull : 0x7E000000ull) + 64 * i;
+        cc.emit(x86::Inst::kIdMov, t, Imm(int64_t(addr)));
+        cc.cursor()->set_user_data_as_uint64(7);
+        e = cc.emit(r.size() > 16 ? x86::Inst::kIdVmovups : x86::Inst::kIdMovups, r, x86::ptr(t));
+        cc.cursor()->set_user_data_as_uint64(7);
+      }
+      if (e != Error::kOk) return "init-" + err_name(e);
+      ops.push_back(r);
+    }
+    else return "bad-op";
+  }
+  InvokeNode* inv = nullptr;
+  e = cc.add_invoke_node(Out<InvokeNode*>(inv), x86::Inst::kIdCall, Imm(uint64_t(0x10000)), sig);
+  if (e != Error::kOk) return "invoke-" + err_name(e);
+  for (uint64_t i = 0; i < n; i++) {
+    if (ops[i].is_imm()) inv->set_arg(uint32_t(i), ops[i].as<Imm>()); else inv->set_arg(uint32_t(i), ops[i].as<Reg>());
+  }
+  for (uint32_t i : split) {
+    uint64_t v = uint64_t(ops[i].as<Imm>().value());
+    inv->set_arg(i, 0, Imm(int64_t(v & 0xFFFFFFFFu)));
+    inv->set_arg(i, 1, Imm(int64_t(v >> 32)));
+  }
+  cc.emit(x86::Inst::kIdNop);
+  if (flags & 1) { x86::Gp t = cc.new_gp32(); x86::Mem m = loc; m.set_size(4); cc.emit(x86::Inst::kIdMov, t, m); }
+  cc.end_func();
+  e = cc.finalize();
+  if (e != Error::kOk) return "fin-" + err_name(e);
+  const FuncFrame& fr = fn->frame();
+  std::string head = "ok ass=" + std::to_string(inv->detail().arg_stack_size()) + " css=" + std::to_string(fr.call_stack_size()) +
+    " csa=" + std::to_string(fr.call_stack_alignment()) + " lso=" + std::to_string(fr.local_stack_offset()) +
+    " lss=" + std::to_string(fr.local_stack_size()) + " fss=" + std::to_string(fr.final_stack_size()) +
+    " da=" + std::to_string(fr.has_dynamic_alignment() ? 1 : 0);
+  std::string insts;
+  int markers = 0;
+  for (BaseNode* node = cc.first_node(); node && markers < 2; node = node->next()) {
+    if (!node->is_inst() && node->type() != NodeType::kInvoke) continue;
+    InstNode* in = node->as<InstNode>();
+    if (in->inst_id() == x86::Inst::kIdNop) { markers++; continue; }
+    if (!markers) continue;
+    String nm;
+    InstAPI::inst_id_to_string(env.arch(), in->inst_id(), InstStringifyOptions::kNone, nm);
+    if (!insts.empty()) insts += ";";
+    if (in->user_data_as_uint64() == 7) insts += "#";
+    insts += nm.data();
+    for (uint32_t k = 0; k < in->op_count(); k++) insts += " " + iv_op_str(in->op(k));
+  }
+  return head + " | " + insts;
+}
+
 static std::string step(const std::string& line) {
   std::vector<std::string> w = vh::words(line);
   if (w.empty()) return "bad-op";
   if (w[0] == "cc") return do_cc(w);
   if (w[0] == "fd") return do_fd(w);
   if (w[0] == "sh") return do_sh(w);
+  if (w[0] == "iv") return do_iv(w);
   return "bad-op";
 }
 
